@@ -297,6 +297,10 @@ def tidy(d):
 
 def py_expr(src):
     """CPython: ast.parse(src).body[0].value → (json | None for SyntaxError, note)"""
+    if not src.strip():
+        # the empty source: the model never asks the expression parser about it (an empty str default is falsy / handled before the
+        # call), so it is no reason to leave a case unclaimed
+        return None, None
     try:
         m = ast.parse(src)
     except SyntaxError:
